@@ -73,6 +73,7 @@ func baseAlphabet() []Op {
 		{K: "List", Pat: "k/?"},
 		{K: "List", Pat: "[ab]"},
 		{K: "List", Pat: "zz"},
+		{K: "List", Pat: "a"},
 		{K: "Wait", Key: "a", Ver: "stale"},
 		{K: "Wait", Key: "a", Ver: "bogus"},
 		{K: "Wait", Key: "zz", Ver: "bogus"},
@@ -132,7 +133,7 @@ func (w *worker) backend(name string) *kvmodel.Backend {
 func TestCheck(t *testing.T) {
 	run := report.New("C03", "exploration")
 	defer run.Finish(t)
-	run.Rule("every sequence over 41 (Redis) / 43 (inmem) operation instances (Create/Get/GetMany/Put/PutMany/CasByVersion/Delete/ListKeys/WaitForVersionChange; nil/empty/non-empty values; with/without far expiry; repeated, missing and no keys in GetMany/PutMany; current/stale/made-up/caller-supplied versions) to the depth bound, plus seeded random sequences of length 30-200 over 6 keys; each backend is compared call by call with the contract model (error class, returned record, version relations, ListKeys as a set). distinct = distinct logical store states (key, presence, value, expiry, kind of last write) reached")
+	run.Rule("every sequence over 42 (Redis) / 44 (inmem) operation instances (Create/Get/GetMany/Put/PutMany/CasByVersion/Delete/ListKeys/WaitForVersionChange; nil/empty/non-empty values; with/without far expiry; repeated, missing and no keys in GetMany/PutMany; current/stale/made-up/caller-supplied versions) to the depth bound, plus seeded random sequences of length 30-200 over 6 keys; each backend is compared call by call with the contract model (error class, returned record, version relations, ListKeys as a set). distinct = distinct logical store states (key, presence, value, expiry, kind of last write) reached")
 	run.Assume("Redis backend runs against the in-process miniredis server; keys with a leading '/' and invalid glob patterns are not generated (contract silent)")
 	run.Assume("values are compared with bytes.Equal (nil == empty), expiries as instants, ListKeys as a set")
 
